@@ -95,6 +95,10 @@ func BeginBlocker(ctx sdk.Context, k keeper.Keeper) {
 
 func GetRewardAge(pool types.Pool) uint {
 	totalReward, _ := sdk.ParseCoinNormalized(TOTAL_REWARD)
+	if !pool.TotalReward.IsLT(totalReward) {
+		// the whole reward supply has been minted: no further subsidy (and no division by zero below)
+		return 64
+	}
 	remain := totalReward.Sub(pool.TotalReward)
 	t, _ := new(big.Float).SetInt(totalReward.Amount.Quo(remain.Amount).BigInt()).Float64()
 	return uint(math.Log2(t))
